@@ -354,7 +354,7 @@ impl Ord for CharacterData {
             (CharacterData::Enum(a), CharacterData::Enum(b)) => a.to_str().cmp(b.to_str()),
             (CharacterData::String(a), CharacterData::String(b)) => a.cmp(b),
             (CharacterData::UnsignedInteger(a), CharacterData::UnsignedInteger(b)) => a.cmp(b),
-            (CharacterData::Float(a), CharacterData::Float(b)) => a.partial_cmp(b).unwrap_or(std::cmp::Ordering::Equal),
+            (CharacterData::Float(a), CharacterData::Float(b)) => a.total_cmp(b),
             (CharacterData::Enum(_), _) => std::cmp::Ordering::Less,
             (CharacterData::String(_), CharacterData::Enum(_)) => std::cmp::Ordering::Greater,
             (CharacterData::String(_), _) => std::cmp::Ordering::Less,
